@@ -51,6 +51,9 @@ CHECKS = {
  'C12': dict(level='model_checking', replay_py='python3-vt', technique='symbolic execution (z3) of JsonLogWriter -> (json layer stubbed by its contract, framing parsed by the real json) -> published schema -> JsonParser on a symbolic record inside lists of 0..3 records; field-and-type comparison',
              text='Every feasible path of the real writer and the real parser over a fully symbolic record (seats, vulnerability, contract incl. passed out and all doubling states, 52-bit deal, auction, 0/1/2/13 tricks, scores, names with unconstrained code points, optional dda) at every position of lists of up to 3 records: the text is one JSON document, validates against the schema read from the repository, and every BoardLog/BoardSetting field equals what was written with the library\'s value types.',
              note='Assumes json.loads(json.dumps(d)) == d; call/card/contract text codecs are replaced by opaque tokens (their inverses are C15). Replay runs the real writer, real json, jsonschema and the real parser.', ref='§4 C12'),
+ 'C13': dict(level='model_checking', technique='symbolic execution (z3) of Server.run from its first line with stubbed environment, symbolic boards and a symbolic abort point (board, phase) x exception kind; captured file parsed by the real json module',
+             text='Every path of the real run() (its with/try structure and the real JsonLogWriter interpreted) over 1..3 symbolic boards where the auction or the play of board k raises Exception or KeyboardInterrupt: the output file is closed, is one JSON document and holds exactly boards 1..k-1, each schema-valid. Replay runs the real server with four bundled clients over in-memory sockets, injects the exception and parses the file from disk.',
+             note='The position inside the auction/play is not visible to run(); that an offending action surfaces as an exception of bidding_phase/playing_phase is by reading (they raise before touching the writer).', ref='§4 C13'),
 }
 
 
